@@ -8,7 +8,7 @@ Open Scope Z_scope.
 Definition p_ret : xproto := (XProto (w63 [134217728;1007026176;2214854658;2214592513]%uint63) [VNum 0x1p+0%float] [] 0 0 7 2 [1;2;2;3] 0).
 Definition s0 : vstate := init_vstate p_ret.
 Definition co_regs : registry := mkReg [Some (VNum 7%float); Some (VBool true)] 2.
-Definition co_thread : thread := mkTh co_regs [] [] (Some 0%nat) false false true.
+Definition co_thread : thread := mkTh co_regs [] [] (Some 0%nat) false false true 0.
 Definition s2 : vstate := with_threads s0 (vthreads s0 ++ [co_thread]).
 
 Example hyps_hold : th_valid s2 (vcur s2) /\ th_valid s2 1%nat /\ vcur s2 = 0%nat /\ vreg s2 <> co_regs.
